@@ -127,6 +127,8 @@ pub fn table() -> Vec<Scenario> {
         Scenario { name: "session-frame-cut-by-fin-in-length", cite: "RFC 9114 §7.1", established: true, roles: BOTH, act: Act::OnSessionFin(vec![0x00, 0x40]), expect: Expect::ConnClose(vec![H3_FRAME_ERROR]) },
         Scenario { name: "session-frame-cut-by-fin-in-payload", cite: "RFC 9114 §7.1", established: true, roles: BOTH, act: Act::OnSessionFin(h3::frame_declared(h3::FRAME_DATA, 20, b"half")), expect: Expect::ConnClose(vec![H3_FRAME_ERROR]) },
         Scenario { name: "session-unknown-frame-cut-by-fin", cite: "RFC 9114 §7.1 (unknown types are skipped whole, a truncated one is still truncated)", established: true, roles: BOTH, act: Act::OnSessionFin(h3::frame_declared(h3::grease(3), 300, &[7u8; 256])), expect: Expect::ConnClose(vec![H3_FRAME_ERROR]) },
+        Scenario { name: "session-unimplemented-frame-cut-by-fin", cite: "RFC 9114 §7.1", established: true, roles: BOTH, act: Act::OnSessionFin(h3::frame_declared(h3::FRAME_GOAWAY, 300, &[7u8; 256])), expect: Expect::ConnClose(vec![H3_FRAME_ERROR]) },
+        Scenario { name: "session-unimplemented-frame-cut-by-fin-after-header", cite: "RFC 9114 §7.1", established: true, roles: BOTH, act: Act::OnSessionFin(h3::frame_declared(0x42_4242, 300, &[])), expect: Expect::ConnClose(vec![H3_FRAME_ERROR]) },
         Scenario { name: "session-unknown-frame-cut-by-fin-after-header", cite: "RFC 9114 §7.1", established: true, roles: BOTH, act: Act::OnSessionFin(h3::frame_declared(h3::grease(3), 300, &[])), expect: Expect::ConnClose(vec![H3_FRAME_ERROR]) },
     ];
     let _ = &mut t;
